@@ -136,7 +136,77 @@ func (m *Models) emptyEvent() Event {
 		}
 		return false
 	}
+	// emptySide: index of the successor taken when the tested value is zero (-1: not such a test)
+	emptySide := func(b *ssa.BinOp, isVal func(ssa.Value) bool) int {
+		switch {
+		case isVal(b.X) && isZero(b.Y, 0):
+			switch b.Op {
+			case token.EQL, token.LEQ:
+				return 0
+			case token.NEQ, token.GTR:
+				return 1
+			}
+		case isVal(b.X) && isZero(b.Y, 1):
+			switch b.Op {
+			case token.LSS:
+				return 0
+			case token.GEQ:
+				return 1
+			}
+		case isZero(b.X, 0) && isVal(b.Y):
+			switch b.Op {
+			case token.EQL, token.GEQ:
+				return 0
+			case token.NEQ, token.LSS:
+				return 1
+			}
+		}
+		return -1
+	}
+	// a helper that receives the aggregate's count as a parameter, tests it against zero and removes the key on the
+	// empty side ("removeKeyIfEmpty(keyName, list.count)")
+	helperMemo := map[string]bool{}
+	emptyHelper := func(g *ssa.Function, idx int) bool {
+		k := fmt.Sprintf("%s#%d", fnName(g), idx)
+		if v, ok := helperMemo[k]; ok {
+			return v
+		}
+		r := false
+		if idx < len(g.Params) {
+			par := g.Params[idx]
+			for _, blk := range g.Blocks {
+				ifi, ok := blk.Instrs[len(blk.Instrs)-1].(*ssa.If)
+				if !ok {
+					continue
+				}
+				bo, ok := ifi.Cond.(*ssa.BinOp)
+				if !ok {
+					continue
+				}
+				es := emptySide(bo, func(v ssa.Value) bool { return v == ssa.Value(par) })
+				if es < 0 {
+					continue
+				}
+				succ := blk.Succs[es]
+				if len(succ.Preds) == 1 && removesKey(succ) {
+					r = true
+				}
+			}
+		}
+		helperMemo[k] = r
+		return r
+	}
 	return func(in ssa.Instruction) bool {
+		if call, isCall := in.(*ssa.Call); isCall {
+			if g := call.Call.StaticCallee(); g != nil && p.InPkg(g) {
+				for i, a := range call.Call.Args {
+					if isCount(a) && emptyHelper(g, i) {
+						return true
+					}
+				}
+			}
+			return false
+		}
 		ifi, ok := in.(*ssa.If)
 		if !ok {
 			return false
